@@ -5,7 +5,7 @@ D_IMPORTS = "From Ergo Require Import Common.Base Sched.Delayed."
 
 
 def run(c):
-    _sched.run(c, "theories/Properties/C02.v", ["spec_c02"])
+    _sched.run(c, "theories/Properties/C02.v", ["spec_c02"], meta_spec=["spec_meta_c02"])
     if not c.replay:
         out = c.harness("sched", ["delayed", "-n", "400" if c.tier == "quick" else "5000"], timeout=600)
         if out:
